@@ -940,6 +940,244 @@ func vRunC09Case(out *vOut, r *vRand, id int, stats map[string]int) {
 	c.finish()
 }
 
+// ---- C08: compaction ----
+
+// doCompact runs Clean() on a log with Compact = true and judges the outcome with an independently
+// computed survivor set (the property's own words).
+func (c *vLogCase) doCompact() {
+	hw := c.l.HighWatermark()
+	segs := c.l.Segments()
+	lastBase := segs[len(segs)-1].BaseOffset
+	nsegs := len(segs)
+	var err error
+	p := vCatch(func() { err = c.l.Clean() })
+	c.ops = append(c.ops, vM{"op": "cleanc", "ttl": 0})
+	c.stats["compact"]++
+	if p != "" || err != nil {
+		c.violation("compact-failed", fmt.Sprintf("Clean: %v %s", err, p))
+		return
+	}
+	// survivors demanded by the property: latest committed record of every key, every record without
+	// a key, everything at or above the HW, everything in the newest segment
+	latest := map[string]int64{}
+	for _, r := range c.ref {
+		if r.key != nil && r.off <= hw {
+			latest[string(r.key)+"|"+fmt.Sprint(len(r.key))] = r.off
+		}
+	}
+	var must []vRefRec
+	removedAny := false
+	for _, r := range c.ref {
+		keep := r.key == nil || r.off >= hw || r.off >= lastBase || nsegs <= 1
+		if !keep {
+			keep = latest[string(r.key)+"|"+fmt.Sprint(len(r.key))] == r.off
+		}
+		if keep {
+			must = append(must, r)
+		} else {
+			removedAny = true
+		}
+	}
+	if removedAny {
+		c.stats["compact-may-remove"]++
+	}
+	// what is there now
+	var got []vRefRec
+	rp := vCatch(func() {
+		rd, err := c.l.NewReader(c.l.OldestOffsetOrZero(), true)
+		if err != nil {
+			return
+		}
+		_, got, _ = vReadUntilBlock(rd, true)
+	})
+	if rp != "" {
+		c.violation("read-after-compact-panic", "reading the compacted log panicked: "+rp)
+		return
+	}
+	// got must be a subsequence of ref (unchanged records) and a superset of must
+	byOff := map[int64]vRefRec{}
+	for _, r := range c.ref {
+		byOff[r.off] = r
+	}
+	prev := int64(-1)
+	gotSet := map[int64]bool{}
+	for _, g := range got {
+		w, ok := byOff[g.off]
+		if !ok || g.off <= prev || !bytes.Equal(g.body, w.body) || g.ts != w.ts || g.ep != w.ep {
+			c.violation("compact-changed-record", fmt.Sprintf("after compaction offset %d is out of order or differs from what was stored", g.off))
+			return
+		}
+		prev = g.off
+		gotSet[g.off] = true
+	}
+	for _, m := range must {
+		if !gotSet[m.off] {
+			c.violation("compact-lost-record", fmt.Sprintf("compaction removed offset %d (key %q nil=%v, hw %d, newest segment base %d) which must survive", m.off, m.key, m.key == nil, hw, lastBase))
+			return
+		}
+	}
+	if len(got) < len(c.ref) {
+		c.stats["compact-removed"]++
+	}
+	c.ref = got // the abstract log is now the survivor sequence
+}
+
+// doReverseRead creates a reverse reader and drains it.
+func (c *vLogCase) doReverseRead(start int64, unc bool, stop int64) {
+	var got []vM
+	var gotRecs []vRefRec
+	found := true
+	p := vCatch(func() {
+		rd, err := c.l.NewReverseReader(start, unc)
+		if err != nil {
+			found = false
+			return
+		}
+		if stop >= 0 {
+			rd.SetStopOffset(stop)
+		}
+		hb := make([]byte, 28)
+		for n := 0; n < 100000; n++ {
+			m, off, ts, ep, err := rd.ReadMessage(context.Background(), hb)
+			if err != nil {
+				return
+			}
+			body := append([]byte{}, m...)
+			got = append(got, vM{"off": off, "ts": ts, "ep": ep, "body": vHex(body)})
+			gotRecs = append(gotRecs, vRefRec{off: off, ts: ts, ep: ep, body: body})
+		}
+	})
+	c.ops = append(c.ops, vM{"op": "rread", "unc": unc, "start": start, "stop": stop, "found": found, "recs": got})
+	c.stats[fmt.Sprintf("rread/unc=%v/found=%v", unc, found)]++
+	if p != "" {
+		c.violation("reverse-read-panic", fmt.Sprintf("reverse reader from %d panicked: %s", start, p))
+		return
+	}
+	// direct oracle: exactly the retained records with stop <= offset <= effective start, newest first
+	hw := c.l.HighWatermark()
+	eff := start
+	if !unc {
+		if hw == -1 {
+			if found && len(gotRecs) > 0 {
+				c.violation("reverse-read-uncommitted", "committed reverse reader returned records although nothing is committed")
+			}
+			return
+		}
+		if start > hw || start == -1 {
+			eff = hw
+		}
+	}
+	var want []vRefRec
+	for i := len(c.ref) - 1; i >= 0; i-- {
+		r := c.ref[i]
+		if r.off <= eff && (stop < 0 || r.off >= stop) {
+			want = append(want, r)
+		}
+	}
+	if !found {
+		if len(want) > 0 && eff <= c.l.NewestOffset() {
+			c.violation("reverse-read-missing", fmt.Sprintf("reverse reader from %d (uncommitted=%v) not created but %d records qualify", start, unc, len(want)))
+		}
+		return
+	}
+	if len(gotRecs) != len(want) {
+		c.violation("reverse-read-content", fmt.Sprintf("reverse reader from %d (uncommitted=%v, hw=%d, stop=%d) returned %d records %v, %d qualify", start, unc, hw, stop, len(gotRecs), vOffs(gotRecs), len(want)))
+		return
+	}
+	for i := range want {
+		if gotRecs[i].off != want[i].off || !bytes.Equal(gotRecs[i].body, want[i].body) {
+			c.violation("reverse-read-content", fmt.Sprintf("reverse reader from %d: position %d has offset %d, expected %d", start, i, gotRecs[i].off, want[i].off))
+			return
+		}
+	}
+}
+
+func vOffs(rs []vRefRec) []int64 {
+	var o []int64
+	for _, r := range rs {
+		o = append(o, r.off)
+	}
+	return o
+}
+
+func (l *commitLog) OldestOffsetOrZero() int64 {
+	if o := l.OldestOffset(); o >= 0 {
+		return o
+	}
+	return l.NewestOffset() + 1
+}
+
+func vRunC08Case(out *vOut, r *vRand, id int, stats map[string]int) {
+	maxb := int64([]int{70, 100, 150, 220}[r.intn(4)])
+	opts := Options{MaxSegmentBytes: maxb, Compact: true, CompactMaxGoroutines: []int{1, 2, 10}[r.intn(3)]}
+	c := vNewLogCase(out, id, "c08", opts, stats)
+	if c.l == nil {
+		return
+	}
+	// key pool: nil, empty, and a few short keys
+	pool := [][]byte{nil, {}, []byte("a"), []byte("b")}
+	switch r.intn(4) {
+	case 0:
+		pool = [][]byte{[]byte("a"), []byte("b"), []byte("c")}
+	case 1:
+		pool = [][]byte{nil, []byte("a")}
+	case 2:
+		pool = [][]byte{{}, []byte("a"), nil, nil}
+	}
+	nops := 6 + r.intn(20)
+	for i := 0; i < nops && !c.viol; i++ {
+		switch r.pick(10, 3, 3, 2, 1) {
+		case 0:
+			n := 1 + r.pick(5, 3, 2)
+			var msgs []*Message
+			for j := 0; j < n; j++ {
+				msgs = append(msgs, c.genMsg(r, pool))
+			}
+			c.doAppend(msgs)
+		case 1:
+			nw := c.l.NewestOffset()
+			if nw >= 0 {
+				c.doHW(int64(r.intn(int(nw) + 1)))
+			}
+		case 2:
+			c.layout()
+			c.doCompact()
+			c.layout()
+		case 3:
+			nw := c.l.NewestOffset()
+			c.doReverseRead(int64(r.intn(int(nw)+3))-1, r.intn(2) == 0, int64(r.intn(int(nw)+3))-1)
+		default:
+			c.doReopen()
+			if c.l == nil {
+				c.finish()
+				return
+			}
+		}
+		c.state()
+	}
+	if !c.viol {
+		c.layout()
+		c.doCompact()
+		c.layout()
+		c.state()
+	}
+	if !c.viol {
+		c.readSweep(r, true)
+	}
+	if !c.viol {
+		// reverse readers from every offset, committed and uncommitted
+		nw := c.l.NewestOffset()
+		for o := int64(-1); o <= nw+1 && !c.viol; o++ {
+			c.doReverseRead(o, true, -1)
+			c.doReverseRead(o, false, -1)
+		}
+		for k := 0; k < 4 && !c.viol; k++ {
+			c.doReverseRead(int64(r.intn(int(nw)+2)), r.intn(2) == 0, int64(r.intn(int(nw)+2)))
+		}
+	}
+	c.finish()
+}
+
 func TestVerifLog(t *testing.T) {
 	out := vOpenOut()
 	defer out.close()
@@ -955,6 +1193,8 @@ func TestVerifLog(t *testing.T) {
 			vRunC16Case(out, r, i, stats)
 		case "c09":
 			vRunC09Case(out, r, i, stats)
+		case "c08":
+			vRunC08Case(out, r, i, stats)
 		}
 	}
 	out.emit(vM{"k": "stat", "dist": stats})
